@@ -99,14 +99,17 @@ class Run:
                 self.ev["functions"].append({"function": c.qual, "source_sha256_16": X.source_hash(c.qual),
                                              "obligations": len([o for o in fobs if o.expect == "unsat"]), "note": c.note})
         # lemmas
+        lemma_canaries = []
         for l in R.LEMMAS:
             if self.pid in l.props:
-                obs.extend(lemma_obligations(ex, l)); self.ev["lemmas"] += 1
+                lo = lemma_obligations(ex, l)
+                if l.canary: lemma_canaries.append((l, lo[0]))
+                else: obs.extend(lo); self.ev["lemmas"] += 1
         for cq in R.CONTRACTS:
             c = R.CONTRACTS[cq]
             if c.assume_only and c.qual in ex.called and self.pid not in c.props:
                 self.ev["assumed_contracts"].append("%s: %s" % (c.qual, c.note or "assumed"))
-        allobs = obs + [o for v in canary_obs.values() for o in v]
+        allobs = obs + [o for v in canary_obs.values() for o in v] + [o for _, o in lemma_canaries]
         results = solve.solve_all(allobs, timeout=timeout)
         bymap = {id(r.ob): r for r in results}
         if os.environ.get("PYVC_TIMES"):
@@ -117,6 +120,10 @@ class Run:
             self.ev["canaries"] += 1
             if any(bymap[id(o)].status == "sat" and o.expect == "unsat" for o in fobs): self.ev["canaries_refuted"] += 1
             else: self.canary_failed.append(cq)
+        for l, o in lemma_canaries:
+            self.ev["canaries"] += 1
+            if bymap[id(o)].status == "unsat": self.fatal.append("canary lemma %s was PROVED: its hypotheses are contradictory (vacuous lemma)" % l.name)
+            else: self.ev["canaries_refuted"] += 1
         # second chance for anything undecided: re-solve with little parallelism and a larger budget, so that machine load
         # cannot turn a provable obligation into an alarm
         retry = [o for o in obs if o.expect == "unsat" and bymap[id(o)].status in ("gaveup", "timeout")]
@@ -315,6 +322,8 @@ def stable_key(o):
 def lemma_obligations(ex, l):
     st = RP.State(); st.ctx = ("shexer", None, "lemma:" + l.name)
     from pyvc.state import SV, fresh
+    from pyvc import types as T_
+    st.alloc = fresh("alloc0", T_.Int); st.assume(st.alloc >= 1)
     for n, ty in l.vars.items():
         st.env[n] = SV(ty, fresh(n, ty))
     ex.current_inputs = dict(st.env)
